@@ -1,7 +1,7 @@
-(** Safety/NumericProofs.v — C14, numeric-parameter sites: for every site, over the whole Rust integer type,
+(** Safety/NumericProofs.v — C14, numeric-parameter sites of this area (function.rs, encoding.rs, fax geometry): for every site, over the whole Rust integer type,
     either "no checked primitive can fire" (the guards in the code suffice) or the exact class of parameters
     on which one fires, with a concrete witness ([…_refuted]) that is replayed on the real code. *)
-From PdfV Require Import Base.Prelude Gen.Generated Lex.Lexer Codec.Model Safety.Front Safety.FrontProofs Safety.Numeric.
+From PdfV Require Import Base.Prelude Gen.Generated Lex.Lexer Safety.Front Safety.FrontProofs Safety.Numeric.
 
 (* ------------------------------------------------------------------ generated guards (table lemmas) *)
 Lemma guards_table :
@@ -9,20 +9,14 @@ Lemma guards_table :
 Proof. repeat split; reflexivity. Qed.
 Lemma fn2_guard_table : (fn2_domain_max_index <? fn2_domain_min) = true /\ (0 <? fn2_domain_min) = true.
 Proof. split; vm_compute; reflexivity. Qed.
-Lemma crypt_table : (0 <? crypt_bits_div) = true /\ (crypt_bits_div <=? crypt_v1_bits) = true /\ crypt_len_mult = 8 /\ crypt_bits_div = 8.
-Proof. repeat split; vm_compute; reflexivity. Qed.
-Lemma depth_table : (0 <? sf_page_depth) = true /\ (0 <? tree_depth) = true /\ (0 <? cs_depth) = true.
+Lemma depth_table : (0 <? tree_depth) = true /\ (0 <? cs_depth) = true.
 Proof. repeat split; vm_compute; reflexivity. Qed.
 
 (* ------------------------------------------------------------------ checked primitives *)
 Lemma ck_sub_ok s a b : b <= a -> ck_sub s a b = Ok (a - b).
 Proof. intros H. unfold ck_sub. apply N.leb_le in H. rewrite H. reflexivity. Qed.
-Lemma ck_add_ok s a b : a + b < U64 -> ck_add s a b = Ok (a + b).
-Proof. intros H. unfold ck_add. apply N.ltb_lt in H. rewrite H. reflexivity. Qed.
 Lemma ck_mul_ok s a b : a * b < U64 -> ck_mul s a b = Ok (a * b).
 Proof. intros H. unfold ck_mul. apply N.ltb_lt in H. rewrite H. reflexivity. Qed.
-Lemma ck_add32_ok s a b : a + b < U32 -> ck_add32 s a b = Ok (a + b).
-Proof. intros H. unfold ck_add32. apply N.ltb_lt in H. rewrite H. reflexivity. Qed.
 Lemma ck_nth_ok {A} s (l : list A) i : i < lenN l -> exists x, ck_nth s l i = Ok x.
 Proof.
   intros H. unfold ck_nth, nthN. destruct (nth_error l (N.to_nat i)) eqn:E; [eauto|].
@@ -140,261 +134,6 @@ Proof.
         pose proof (ins_sorted_len gid acc). cbn [length]. lia. }
   intros items. destruct (H items 0 []) as [l [H1 H2]]. exists l. split; [exact H1|cbn [length] in H2; lia].
 Qed.
-
-(* ------------------------------------------------------------------ ObjectStream offsets *)
-Lemma nthN_In {A} (l : list A) i x : nthN l i = Some x -> In x l.
-Proof. unfold nthN. apply nth_error_In. Qed.
-
-Theorem objstm_slice_safe first offsets data_len index :
-  objstm_fits first offsets = true -> lenN offsets < U64 -> never_crashes (objstm_slice first offsets data_len index).
-Proof.
-  intros Hf Hlen. unfold objstm_fits in Hf. rewrite forallb_forall in Hf.
-  eapply post_never with (Q := fun _ => True). unfold objstm_slice.
-  destruct (lenN offsets <=? index) eqn:E; [cbn; exact I|]. apply N.leb_gt in E.
-  unfold ck_nth at 1. destruct (nthN offsets index) as [off|] eqn:E1.
-  2:{ unfold nthN in E1. apply nth_error_None in E1. unfold lenN in E. lia. }
-  cbn [bind]. pose proof (Hf _ (nthN_In _ _ _ E1)) as H1. apply N.ltb_lt in H1.
-  rewrite (ck_add_ok _ _ _ H1). cbn [bind].
-  rewrite ck_sub_ok by lia. cbn [bind].
-  destruct (index =? lenN offsets - 1) eqn:E2; [cbn; exact I|]. apply N.eqb_neq in E2.
-  assert (Hi : index + 1 < lenN offsets) by lia.
-  rewrite ck_add_ok by lia. cbn [bind].
-  unfold ck_nth. destruct (nthN offsets (index + 1)) as [off1|] eqn:E3.
-  2:{ unfold nthN in E3. apply nth_error_None in E3. unfold lenN in Hi. lia. }
-  cbn [bind]. pose proof (Hf _ (nthN_In _ _ _ E3)) as H2. apply N.ltb_lt in H2.
-  rewrite (ck_add_ok _ _ _ H2). cbn. exact I.
-Qed.
-
-Theorem objstm_slice_refuted :
-  objstm_slice 8 [18446744073709551615] 6 0 = Panic 502 /\ objstm_fits 8 [18446744073709551615] = false.
-Proof. split; vm_compute; reflexivity. Qed.
-
-Lemma objstm_header_post : forall fuel n s acc, (remaining s < fuel)%nat -> post (fun _ => True) (objstm_header fuel n s acc).
-Proof.
-  induction fuel as [|f IH]; intros n s acc Hf; [lia|].
-  cbn [objstm_header]. destruct (n =? 0); [cbn; exact I|].
-  eapply post_bind; [apply next_post|]. intros [t1 s1] H1. cbn [snd] in H1.
-  eapply post_bind; [apply parse_u64_post|]. intros _ _.
-  eapply post_bind; [apply next_post|]. intros [t2 s2] H2. cbn [snd] in H2.
-  eapply post_bind; [apply parse_u64_post|]. intros off _.
-  apply IH. unfold lt_lx in *. lia.
-Qed.
-
-Theorem objstm_header_total n data : never_crashes (objstm_header (S (length data)) n (mkLx 0 data) []).
-Proof. eapply post_never. apply objstm_header_post. unfold remaining. cbn [lrest]. lia. Qed.
-
-(* ------------------------------------------------------------------ xref stream sections *)
-Theorem xref_section_safe tolerant num w0 w1 w2 data_len :
-  w0 + w1 + w2 < U64 -> num * (w0 + w1 + w2) < U64 ->
-  never_crashes (xref_section_entries tolerant num w0 w1 w2 data_len).
-Proof.
-  intros H1 H2. eapply post_never with (Q := fun _ => True). unfold xref_section_entries.
-  rewrite ck_add_ok by lia. cbn [bind]. rewrite ck_add_ok by lia. cbn [bind].
-  rewrite ck_mul_ok by exact H2. cbn [bind].
-  destruct (data_len <? num * (w0 + w1 + w2)) eqn:E; [|cbn; exact I].
-  destruct tolerant; [|cbn; exact I]. apply N.ltb_lt in E.
-  unfold ck_div. destruct (w0 + w1 + w2 =? 0) eqn:E0; [|cbn; exact I].
-  apply N.eqb_eq in E0. rewrite E0 in E. lia.
-Qed.
-
-(* every value the parser can produce for /W and /Index (non-negative i32) is in the safe class on 64-bit targets *)
-Corollary xref_section_i32_safe tolerant num w0 w1 w2 data_len :
-  num <= 2147483647 -> w0 <= 2147483647 -> w1 <= 2147483647 -> w2 <= 2147483647 ->
-  never_crashes (xref_section_entries tolerant num w0 w1 w2 data_len).
-Proof.
-  intros Hn H0 H1 H2. apply xref_section_safe; unfold U64.
-  - lia.
-  - assert (num * (w0 + w1 + w2) <= 2147483647 * 6442450941) by (apply N.mul_le_mono; lia). lia.
-Qed.
-
-(* the number of entries that will be read never exceeds what the data can hold — when a row has any width *)
-Theorem xref_section_cost tolerant num w0 w1 w2 data_len n :
-  xref_section_entries tolerant num w0 w1 w2 data_len = Ok n -> 0 < w0 + w1 + w2 ->
-  n * (w0 + w1 + w2) <= data_len.
-Proof.
-  unfold xref_section_entries, ck_add, ck_mul, ck_div. intros H Hpos.
-  destruct (w0 + w1 <? U64); [|discriminate]. cbn [bind] in H.
-  destruct (w0 + w1 + w2 <? U64); [|discriminate]. cbn [bind] in H.
-  destruct (num * (w0 + w1 + w2) <? U64); [|discriminate]. cbn [bind] in H.
-  destruct (data_len <? num * (w0 + w1 + w2)) eqn:E.
-  - destruct tolerant; [|discriminate]. destruct (w0 + w1 + w2 =? 0); [discriminate|].
-    inversion H; subst. rewrite N.mul_comm. apply N.mul_div_le. lia.
-  - inversion H; subst. apply N.ltb_ge in E. exact E.
-Qed.
-
-(* C01-c: the product overflows; C01-b: rows of width zero make the count independent of the data *)
-Theorem xref_section_refuted :
-  xref_section_entries false 4294967295 2147483647 2147483647 2147483647 0 = Panic 602 /\
-  xref_section_entries false 4294967295 0 0 0 0 = Ok 4294967295.
-Proof. split; vm_compute; reflexivity. Qed.
-
-(* ------------------------------------------------------------------ CID widths *)
-Theorem widths_safe : forall items sets top, widths_no_empty_array items = true ->
-  (forall z, In (WInt z) items -> (z <= 2147483647)%Z) -> (forall n, In (WArr n) items -> n < U32) ->
-  never_crashes (widths_go items sets top).
-Proof.
-  intros items sets top H Hz Hn. eapply post_never with (Q := fun _ => True). revert sets top H Hz Hn.
-  induction items as [items IH] using (well_founded_induction (Wf_nat.well_founded_ltof _ (@length witem))).
-  intros sets top H Hz Hn. destruct items as [|[c1|n|] t]; try (cbn; exact I).
-  cbn [widths_go]. destruct (c1 <? 0)%Z eqn:Ec; [cbn; exact I|]. apply Z.ltb_ge in Ec.
-  destruct t as [|[c2|n|] t']; try (cbn; exact I).
-  - destruct t' as [|[w|?|] t'']; try (cbn; exact I).
-    assert (Hrec : forall s tp, post (fun _ => True) (widths_go t'' s tp)).
-    { intros s tp. apply IH.
-      - unfold Wf_nat.ltof. cbn [length]. lia.
-      - unfold widths_no_empty_array in *. cbn [forallb andb] in H. exact H.
-      - intros z Hin. apply Hz. right. right. right. exact Hin.
-      - intros n Hin. apply Hn. right. right. right. exact Hin. }
-    destruct (Z.to_N c1 <=? as_usize c2); [|apply Hrec]. destruct (HUGE <? as_usize c2 - Z.to_N c1 + 1); [cbn; exact I|apply Hrec].
-  - assert (Hc1 : (c1 <= 2147483647)%Z) by (apply Hz; left; reflexivity).
-    assert (Hn1 : n < U32) by (apply Hn; right; left; reflexivity).
-    unfold widths_no_empty_array in H. cbn [forallb andb] in H. apply andb_prop in H. destruct H as [H0 H].
-    rewrite ck_add_ok by (unfold U64, U32 in *; lia). cbn [bind].
-    rewrite ck_sub_ok.
-    2:{ apply Bool.negb_true_iff in H0. apply N.eqb_neq in H0. lia. }
-    cbn [bind]. apply IH.
-    + unfold Wf_nat.ltof. cbn [length]. lia.
-    + exact H.
-    + intros z Hin. apply Hz. right. right. exact Hin.
-    + intros m Hin. apply Hn. right. right. exact Hin.
-Qed.
-
-(* C14-c: `c1 + array.len() - 1` underflows for an empty array at code 0;
-   C14-b: a range `c1 c2 w` costs c2 - c1 + 1 steps and cells — 2^64 for c2 = -1, 2^31 for the largest i32,
-   from an input of three tokens *)
-Theorem widths_refuted :
-  widths_site [WInt 0; WArr 0] = Panic 702 /\
-  widths_site [WInt 0; WInt (-1); WInt 5] = Ok (18446744073709551616, 18446744073709551616) /\
-  widths_site [WInt 0; WInt 2147483647; WInt 5] = Ok (2147483648, 2147483648).
-Proof. repeat split; vm_compute; reflexivity. Qed.
-
-(* ------------------------------------------------------------------ crypt key length *)
-Theorem crypt_key_size_sites v r bits cf s : crypt_key_size v r bits cf = Panic s -> s = 801 \/ s = 802.
-Proof.
-  destruct crypt_table as (T1 & _ & _ & _).
-  unfold crypt_key_size, ck_mul32, ck_div. intros H.
-  destruct (v =? 1).
-  { cbn [bind] in H. destruct ((r <? 2) || (6 <? r)); [discriminate|]. destruct (r <=? 4); [|discriminate].
-    destruct (crypt_bits_div =? 0) eqn:E; [apply N.eqb_eq in E; apply N.ltb_lt in T1; lia|]. cbn [bind] in H.
-    destruct (crypt_v1_bits / crypt_bits_div =? 0); inversion H; auto. }
-  destruct (v =? 2).
-  { destruct (bits mod sf_crypt_bits_mod =? 0); [|discriminate]. cbn [bind] in H.
-    destruct ((r <? 2) || (6 <? r)); [discriminate|]. destruct (r <=? 4); [|discriminate].
-    destruct (crypt_bits_div =? 0) eqn:E; [apply N.eqb_eq in E; apply N.ltb_lt in T1; lia|]. cbn [bind] in H.
-    destruct (bits / crypt_bits_div =? 0); inversion H; auto. }
-  destruct ((4 <=? v) && (v <=? 6)); [|discriminate].
-  destruct cf as [[m len]|]; [|discriminate].
-  destruct ((m =? 0) || (m =? 1) || ((m =? 2) && (v =? 5))); [|discriminate].
-  destruct len as [n|].
-  - destruct (crypt_len_mult * n <? U32); [|inversion H; auto]. cbn [bind] in H.
-    destruct ((r <? 2) || (6 <? r)); [discriminate|]. destruct (r <=? 4); [|discriminate].
-    destruct (crypt_bits_div =? 0) eqn:E; [apply N.eqb_eq in E; apply N.ltb_lt in T1; lia|]. cbn [bind] in H.
-    destruct (crypt_len_mult * n / crypt_bits_div =? 0); inversion H; auto.
-  - cbn [bind] in H.
-    destruct ((r <? 2) || (6 <? r)); [discriminate|]. destruct (r <=? 4); [|discriminate].
-    destruct (crypt_bits_div =? 0) eqn:E; [apply N.eqb_eq in E; apply N.ltb_lt in T1; lia|]. cbn [bind] in H.
-    destruct (bits / crypt_bits_div =? 0); inversion H; auto.
-Qed.
-
-Theorem crypt_key_size_terminates v r bits cf : crypt_key_size v r bits cf <> OutOfFuel.
-Proof.
-  unfold crypt_key_size, ck_mul32, ck_div.
-  repeat (match goal with
-          | |- context [if ?c then _ else _] => destruct c
-          | |- context [match ?x with Some _ => _ | None => _ end] => destruct x
-          | |- context [let '(_, _) := ?x in _] => destruct x
-          end; cbn [bind]); try discriminate.
-Qed.
-
-(* C14-d: a key length of 0 bits reaches the assertion in Rc4::new; 8 * n overflows u32 for n >= 2^29 *)
-Theorem crypt_key_size_refuted :
-  crypt_key_size 2 3 0 None = Panic 802 /\ crypt_key_size 4 4 128 (Some (0, Some 536870912)) = Panic 801 /\
-  crypt_key_size 4 4 128 (Some (1, Some 0)) = Panic 802 /\ crypt_key_size 2 3 128 None = Ok 16.
-Proof. repeat split; vm_compute; reflexivity. Qed.
-
-(* ------------------------------------------------------------------ page tree counts *)
-Lemma page_loop_safe : forall d,
-  (forall kids page_nr, counts_fit d kids = true -> post (fun _ => True) (page_limited d kids page_nr)) ->
-  forall ks pos page_nr, pos + level_sum ks < U32 ->
-    (fix all (l : list pnode) : bool :=
-       match l with [] => true | PLeaf :: t => all t | PTree _ sub :: t => counts_fit d sub && all t end) ks = true ->
-    post (fun _ => True)
-      ((fix loop (ks : list pnode) (pos : N) {struct ks} : res unit :=
-         match ks with
-         | [] => Err E_OOB
-         | PLeaf :: t => if pos =? page_nr then Ok tt else do p <- ck_add32 902 pos 1; loop t p
-         | PTree c sub :: t =>
-             do hi <- ck_add32 901 pos c;
-             if (pos <=? page_nr) && (page_nr <? hi) then page_limited d sub (page_nr - pos) else loop t hi
-         end) ks pos).
-Proof.
-  intros d IHd. induction ks as [|k t IH]; intros pos page_nr Hs Ha; [cbn; exact I|].
-  destruct k as [|c sub].
-  - cbn [level_sum weight] in Hs. destruct (pos =? page_nr); [cbn; exact I|].
-    rewrite ck_add32_ok by lia. cbn [bind]. apply IH; [lia|exact Ha].
-  - cbn [level_sum weight] in Hs. apply andb_prop in Ha. destruct Ha as [Ha1 Ha2].
-    rewrite ck_add32_ok by lia. cbn [bind].
-    destruct ((pos <=? page_nr) && (page_nr <? pos + c)); [apply IHd; exact Ha1|apply IH; [lia|exact Ha2]].
-Qed.
-
-Theorem page_limited_safe : forall depth kids page_nr, counts_fit depth kids = true ->
-  never_crashes (page_limited depth kids page_nr).
-Proof.
-  intros depth kids page_nr H. eapply post_never with (Q := fun _ => True). revert kids page_nr H.
-  induction depth as [|d IH]; intros kids page_nr H; [cbn; exact I|].
-  cbn [page_limited]. cbn [counts_fit] in H. apply andb_prop in H. destruct H as [H1 H2].
-  apply N.ltb_lt in H1. apply page_loop_safe; [exact IH|lia|exact H2].
-Qed.
-
-(* C14-e: lying /Count values make `pos + tree.count` overflow u32 *)
-Theorem page_counts_refuted :
-  page_site [PTree 2147483647 [PLeaf]; PTree 2147483647 [PLeaf]; PTree 2147483647 [PLeaf]] 4294967295 = Panic 901 /\
-  counts_fit 16 [PTree 2147483647 [PLeaf]; PTree 2147483647 [PLeaf]; PTree 2147483647 [PLeaf]] = false /\
-  page_site [PLeaf; PTree 2 [PLeaf; PLeaf]; PLeaf] 2 = Ok tt.
-Proof. repeat split; vm_compute; reflexivity. Qed.
-
-(* ------------------------------------------------------------------ predictor geometry (enc.rs: flate_decode) *)
-Lemma unpredict_rows_fuel : forall fuel stride bpp prev inp, (length inp < fuel)%nat ->
-  post (fun out => True) (unpredict_rows fuel stride bpp prev inp).
-Proof.
-  induction fuel as [|f IH]; intros stride bpp prev inp Hf; [lia|].
-  cbn [unpredict_rows]. destruct (Nat.ltb stride (length inp)); [|cbn; exact I].
-  destruct inp as [|tag body]; [cbn; exact I|].
-  destruct (ptype_of_tag tag); [|cbn; exact I].
-  assert (H : post (fun _ => True) (unpredict_rows f stride bpp (unfilter p bpp prev (firstn stride body)) (skipn stride body))).
-  { apply IH. rewrite skipn_length. cbn [length] in Hf. lia. }
-  destruct (unpredict_rows f stride bpp _ (skipn stride body)); cbn in *; auto.
-Qed.
-
-Theorem unpredict_safe predictor colors columns decoded :
-  as_usize columns * as_usize colors + 1 < U64 -> never_crashes (unpredict predictor colors columns decoded).
-Proof.
-  intros H. eapply post_never with (Q := fun _ => True). unfold unpredict.
-  destruct (18446744073709551616 <=? as_usize columns * as_usize colors) eqn:E1.
-  { apply N.leb_le in E1. unfold U64 in H. lia. }
-  destruct (as_usize predictor <=? png_threshold); [cbn; exact I|].
-  destruct (18446744073709551616 <=? as_usize columns * as_usize colors + 1) eqn:E2.
-  { apply N.leb_le in E2. unfold U64 in H. lia. }
-  pose proof (unpredict_rows_fuel (S (length decoded)) (N.to_nat (as_usize columns * as_usize colors)) (N.to_nat (as_usize colors))
-                (repeatN 0 (N.to_nat (as_usize columns * as_usize colors))) decoded ltac:(lia)) as Hr.
-  destruct (unpredict_rows _ _ _ _ decoded); cbn in *; auto.
-Qed.
-
-Theorem unpredict_sites predictor colors columns decoded s :
-  unpredict predictor colors columns decoded = Panic s -> s = 104 \/ s = 105.
-Proof.
-  unfold unpredict. intros H.
-  destruct (18446744073709551616 <=? as_usize columns * as_usize colors); [inversion H; auto|].
-  destruct (as_usize predictor <=? png_threshold); [discriminate|].
-  destruct (18446744073709551616 <=? as_usize columns * as_usize colors + 1); [inversion H; auto|].
-  pose proof (unpredict_rows_fuel (S (length decoded)) (N.to_nat (as_usize columns * as_usize colors)) (N.to_nat (as_usize colors))
-                (repeatN 0 (N.to_nat (as_usize columns * as_usize colors))) decoded ltac:(lia)) as Hr.
-  destruct (unpredict_rows _ _ _ _ decoded); cbn in *; try discriminate; contradiction.
-Qed.
-
-(* C05-h / C14: negative /Columns and /Colors become 2^64 - 1 and the product overflows *)
-Theorem unpredict_refuted : unpredict 12 (-1) (-1) [0; 1; 2] = Panic 104 /\ unpredict 12 1 (-1) [0; 1; 2] = Panic 105.
-Proof. split; vm_compute; reflexivity. Qed.
 
 (* ------------------------------------------------------------------ fax geometry *)
 Theorem fax_capacity_sites columns rows : columns < U32 -> rows < U32 ->
